@@ -414,9 +414,9 @@ def scan_lexicons(source: AnyPath) -> list[ScanInfo]:
         for m in lex_re.finditer(fh.read()):
             lextype, remainder = m.groups()
             attrs = {
-                _m.group(1).decode("utf-8"): (
+                _m.group(1).decode("utf-8"): _unescape_attribute((
                     _m.group(2) if _m.group(2) is not None else _m.group(3)
-                ).decode("utf-8")
+                ).decode("utf-8"))
                 for _m in attr_re.finditer(remainder)
             }
             if 'id' not in attrs or 'version' not in attrs:
@@ -438,6 +438,25 @@ def scan_lexicons(source: AnyPath) -> list[ScanInfo]:
                 raise LMFError('invalid use of <Extends> in WN-LMF file')
 
     return infos
+
+
+_XML_ENTITIES = {'lt': '<', 'gt': '>', 'amp': '&', 'quot': '"', 'apos': "'"}
+
+
+def _unescape_attribute(value: str) -> str:
+    """Resolve character/entity references and normalize whitespace
+    as an XML parser does for attribute values."""
+
+    def resolve(m: re.Match) -> str:
+        ref = m.group(1)
+        if ref.startswith('#x'):
+            return chr(int(ref[2:], 16))
+        elif ref.startswith('#'):
+            return chr(int(ref[1:]))
+        return _XML_ENTITIES[ref]
+
+    value = re.sub(r'\r\n|[\t\n\r]', ' ', value)
+    return re.sub(r'&(#x[0-9a-fA-F]+|#[0-9]+|lt|gt|amp|quot|apos);', resolve, value)
 
 
 _Elem = dict[str, Any]  # basic type for the loaded XML data
